@@ -58,7 +58,8 @@ REQUIRED_PROBES = {
             "probe_rootless_query", "fault_stall_then_cancel", "result_exc"],
     "C16": ["probe_qmetadata_twice_in_a_row", "qmd_repeated_key", "c16_backend_checks"],
     "C04": ["probe_site_reinvoked_after_rebinding", "site_blocked_calls",
-            "c04_executor_lambda_checks"],
+            "c04_executor_lambda_checks", "c04_multi_generator_sites",
+            "c04_def_function_sites"],
 }
 LAT = [0.0, 0.001, 1.0, 60.0, 3600.0]
 KEYS = ["k0", "k1", "k2", "K0", "title", "never"]
@@ -105,6 +106,23 @@ TYPED = [
     ("SelectMany", "lambda e: e.jets()"),
     ("SelectMany", "lambda e: e.jets().Select(lambda j: j.pt())"),
     ("SelectMany", "lambda e: e.jets().Where(lambda j: j.eta() > 0)"),
+    # reach (tools/reach.py): integer arithmetic, conditionals, subscripts of tuples / dict
+    # displays / dataclasses, unary operators - type-follower paths no earlier entry visited
+    ("Select", "lambda e: e.jets().Count() + 1"),
+    ("Select", "lambda e: e.jets().Count() / 2"),
+    ("Select", "lambda e: e.jets().Count() * 2 - 1"),
+    ("Select", "lambda e: 1 if e.met() > 1 else 2.5"),
+    ("Select", "lambda e: e.met() if e.jets().Count() > 1 else 0"),
+    ("Select", "lambda e: (e.met(), e.jets())[1]"),
+    ("Select", "lambda e: (e.met(), e.jets())[0] + 1"),
+    ("Select", "lambda e: {'a': e.met(), 'b': e.jets()}.b"),
+    ("Select", "lambda e: {'a': e.met(), 'b': e.jets()}['a']"),
+    ("Select", "lambda e: -e.met()"),
+    ("Select", "lambda e: e.jets()[0].pt()"),
+    ("Select", "lambda e: DC(e.met(), b=e.met())['a']"),
+    ("Where", "lambda e: not (e.met() > 1)"),
+    ("Select", "lambda e: e.jets().Select(lambda j: (j.pt(), j.eta()))"),
+    ("Select", "lambda e: e.jets().Select(lambda j: {'p': j.pt(), 'q': j.eta(b=5)})"),
 ]
 FAIL_KINDS = ["where_nonbool", "missing_arg", "cb_raise", "bad_lambda"]
 TERMS = ["pandas", "awkward", "root", "parquet"]
@@ -176,6 +194,7 @@ def gen_site(rng, boom_ok=False):
         binders[which] = shadow
     e, j, k = binders["e"], binders["j"], binders["k"]
     banned = {shadow} if shadow else set()
+    flags = {}
 
     def v():
         names = (["G0", "G1", "K0.A", "K0.In.B", "simcfg.m", "@c1", "@c1", "max"] if module_scope
@@ -221,6 +240,23 @@ def gen_site(rng, boom_ok=False):
             lambda: f"{e}.jets.Select(lambda {k}: {k}.pt).Select(lambda {j}: {j} + {e}.jets.Select(lambda {j}: {j}.eta + {v()}).Count() + {j})",
             lambda: f"{e}.jets.Select(lambda {k}: {k}.pt).Select(lambda {j}: [{j}.eta for {j} in {e}.jets if {j}.pt > {v()}].Count() + {j})",
         ]
+        # comprehensions with several generators (lowered to nested Selects: the comparison
+        # with Python's flat result is made on flattened values), and set / dict comprehensions
+        # (left as they are, with their captured names replaced)
+        def multi(text_fn):
+            def form():
+                flags["flatten"] = True
+                return text_fn()
+            return form
+
+        forms += [
+            multi(lambda: f"[{j}.pt + {k}.pt + {v()} for {j} in {e}.jets for {k} in {e}.jets if {k}.eta < {v()}]"),
+            multi(lambda: f"[{j}.pt * {k} for {j} in {e}.jets for {k} in [{v()}, {e}.a, {v()}]]"),
+            multi(lambda: f"[{k} + {j}.pt for {j} in {e}.jets if {j}.pt > {v()} for {k} in [{j}.eta, {v()}]]"),
+            lambda: f"{{{j}.eta: {j}.pt + {v()} for {j} in {e}.jets}}",
+            lambda: f"{{{j}.pt + {v()} for {j} in {e}.jets if {j}.eta < {v()}}}",
+            lambda: f"{{{j}.eta: {k} + {v()} for {j} in {e}.jets for {k} in [{j}.pt, {v()}]}}",
+        ]
         if shadow in ("G0", "c0", "c1") and binders["j"] == shadow and not module_scope:
             # the shadowing binder's scope ends; afterwards the name is the captured one again
             def after_scope():
@@ -249,6 +285,10 @@ def gen_site(rng, boom_ok=False):
     site = {"op": op, "lam": f"lambda {e}: {body}", "free": sorted(free), "shadow": shadow}
     if module_scope:
         site["scope"] = "module"
+    site.update(flags)
+    if rng.random() < 0.15:
+        # the callable is a one-line `def` (with or without a docstring) instead of a lambda
+        site["supply"] = rng.choice(["def", "def_doc"])
     return site
 
 
@@ -468,11 +508,38 @@ def strip_empty_md(n):
     return type(n)(**{f: strip_empty_md(getattr(n, f)) for f in n._fields if hasattr(n, f)})
 
 
+def _flat(v):
+    if isinstance(v, list):
+        out = []
+        for x in v:
+            out.extend(_flat(x))
+        return out
+    return [v]
+
+
+def _flat_outcome(o):
+    "An outcome with a nested-list value flattened (multi-generator comprehensions)."
+    if o and o[0] == "ok" and isinstance(o[1], list):
+        return ("ok", _flat(o[1]))
+    return o
+
+
 def free_names(node, bound=frozenset()):
-    "Names read in an expression that no enclosing lambda of the expression binds."
+    "Names read in an expression that no enclosing lambda or comprehension of it binds."
     if isinstance(node, ast.Lambda):
         inner = bound | {a.arg for a in node.args.args}
         return free_names(node.body, inner)
+    if isinstance(node, (ast.ListComp, ast.SetComp, ast.GeneratorExp, ast.DictComp)):
+        out = set()
+        inner = bound
+        for i, g in enumerate(node.generators):
+            out |= free_names(g.iter, bound if i == 0 else inner)
+            inner = inner | {n.id for n in ast.walk(g.target) if isinstance(n, ast.Name)}
+            for c in g.ifs:
+                out |= free_names(c, inner)
+        for part in ([node.key, node.value] if isinstance(node, ast.DictComp) else [node.elt]):
+            out |= free_names(part, inner)
+        return out
     if isinstance(node, ast.Name):
         return set() if node.id in bound else {node.id}
     out = set()
@@ -846,7 +913,9 @@ class Forest:
             return [("exc", "compile:" + type(ex).__name__)] * len(SAMPLES)
         return [le.outcome(f, s) for s in SAMPLES]
 
-    def same_where_ref_ok(self, refs, got):
+    def same_where_ref_ok(self, refs, got, flatten=False):
+        if flatten:
+            refs, got = [_flat_outcome(r) for r in refs], [_flat_outcome(g) for g in got]
         return all(g == r for g, r in zip(got, refs) if r[0] == "ok")
 
     def check_lambda_still(self, rec, lam, where, idx):
@@ -854,7 +923,7 @@ class Forest:
         if d == rec["dump"]:
             return
         got = self.eval_lambda(lam) if lam is not None else []
-        if lam is None or not self.same_where_ref_ok(rec["refs"], got):
+        if lam is None or not self.same_where_ref_ok(rec["refs"], got, rec.get("flatten")):
             raise Violation("C04/drift", {"stream": idx, "where": where, "site": rec["site"],
                                           "lambda_then": rec["text"],
                                           "lambda_now": _safe_unparse(lam)})
@@ -990,8 +1059,14 @@ class Forest:
             got = self.eval_lambda(lam)
             self.stat("c04_site_evals")
             self.stat("c04_ref_samples_ok", sum(1 for r in refs if r[0] == "ok"))
-            if not self.same_where_ref_ok(refs, got):
-                bad = next(i for i, (g, r) in enumerate(zip(got, refs)) if r[0] == "ok" and g != r)
+            fl = bool(site.get("flatten"))
+            if fl:
+                self.stat("c04_multi_generator_sites")
+            if site.get("supply"):
+                self.stat("c04_def_function_sites")
+            if not self.same_where_ref_ok(refs, got, fl):
+                bad = next(i for i, (g, r) in enumerate(zip(got, refs)) if r[0] == "ok" and (
+                    _flat_outcome(g) != _flat_outcome(r) if fl else g != r))
                 raise Violation(
                     "C04/value-at-call",
                     {"site": site["lam"], "emitted": _safe_unparse(lam), "sample": bad,
@@ -1007,7 +1082,8 @@ class Forest:
                         n.value, (str, int, float, bool, complex, bytes)):
                     raise Violation("C04/gate", {"site": site["lam"],
                                                  "constant": repr(n.value)[:80]})
-            lam_rec = {"dump": ast.dump(lam), "refs": refs, "site": k, "text": _safe_unparse(lam)}
+            lam_rec = {"dump": ast.dump(lam), "refs": refs, "site": k, "text": _safe_unparse(lam),
+                       "flatten": fl}
         twin = None
         if "C16" in self.oracles and parent.twin is not None:
             twin, _ = self.builder(lambda: site_fn(parent.twin))
